@@ -2111,6 +2111,54 @@ def close_order(chk, program, rule='CLOSE-DOES'):
               found='ok' if not bad else [f"await at line {g.nodes[a].line}: {stmt_key(g.nodes[a].ast)}" for a in bad[:2]],
               detail='' if not bad else 'close() called from the receive callback cancels its own task; the CancelledError raised at that await skips the rest of close(), so the link would stay open')
 
+def close_every_path(chk, program, rule='CLOSE-DOES'):
+    """close() does its work on every path, whatever the state was: in the graph of close() (helpers inlined), in the world "a writer exists and
+    both background tasks exist and are still running", every path from the entry to the end passes self.writer.close(), the cancellation of the
+    receive task and the cancellation of the consumer task.  Paths that only branch on something of the client this analysis does not know are
+    no witness; a branch on the connection state is taken both ways (close() must work from every state)."""
+    from .cfg import reach_with_flags
+    q = f"{BASE}.close"
+    g = cfg_of(program, q)
+    aliases = {}
+    for n in g.nodes:
+        if n.kind == 'stmt' and isinstance(n.ast, ast.Assign) and len(n.ast.targets) == 1 and isinstance(n.ast.targets[0], ast.Name):
+            for attr in ('_receive_task', '_process_queue_task', 'writer'):
+                if is_self_attr(n.ast.value, (attr,)):
+                    aliases[n.ast.targets[0].id] = attr
+    def which(e):
+        if isinstance(e, ast.Attribute) and isinstance(e.value, ast.Name) and e.value.id == 'self' and e.attr in ('_receive_task', '_process_queue_task', 'writer'):
+            return e.attr
+        if isinstance(e, ast.Name) and e.id in aliases:
+            return aliases[e.id]
+        return None
+    def atom(e):          # tasks exist and are running, a writer exists
+        if which(e) is not None:
+            return True
+        if isinstance(e, ast.Compare) and len(e.ops) == 1 and which(e.left) is not None and isinstance(e.comparators[0], ast.Constant) and e.comparators[0].value is None:
+            return isinstance(e.ops[0], (ast.IsNot, ast.NotEq))
+        if isinstance(e, ast.Call) and isinstance(e.func, ast.Attribute) and e.func.attr in ('done', 'cancelled') and which(e.func.value) in ('_receive_task', '_process_queue_task') and not e.args:
+            return False
+        return NotImplemented
+    def state_test(t):
+        return any(is_state_read(x) for x in ast.walk(t))
+    def taint(t):
+        return may_encode_state(t) and not state_test(t)
+    for what, pred in (('link-shut', lambda c: isinstance(c.func, ast.Attribute) and c.func.attr == 'close' and which(c.func.value) == 'writer'),
+                       ('receive-task-cancelled', lambda c: isinstance(c.func, ast.Attribute) and c.func.attr == 'cancel' and which(c.func.value) == '_receive_task'),
+                       ('consumer-task-cancelled', lambda c: isinstance(c.func, ast.Attribute) and c.func.attr == 'cancel' and which(c.func.value) == '_process_queue_task')):
+        doers = {nid for nid, c in nodes_calling(g, pred)}
+        if not doers:
+            continue          # absent altogether: CLOSE-DOES `close::cancels::*` / `writer-closed` report (or refuse) that
+        may, sure = reach_with_flags(g, g.entry.id, doers, atom, taint=taint)
+        if g.exit.id in may and g.exit.id not in sure:
+            chk.unknown(rule, f"close::on-every-path::{what}", 'close() branches on something of the client that this analysis does not know: not decided', IO, g.fn.lineno)
+            continue
+        bad = g.exit.id in sure
+        chk.check(not bad, rule, f"close::on-every-path::{what}", file=IO, line=g.fn.lineno, func='close',
+                  expected='done on every path through close(), from whatever state it is called (task running, writer present)',
+                  found='ok' if not bad else 'a path through close() returns without it',
+                  detail='' if not bad else 'closing a client that is not connected (before connect, during a retry wait, after a fault) would leave the link open or a background task running for ever')
+
 def connect_shuts_late_link(chk, program, rule='CLOSE-DOES'):
     """close() can run while connect() waits for the transport: the link that _connect_impl() then opens must be shut by connect() itself.  In the
     graph of connect() (helpers inlined), from the `_connect_impl()` call onwards, in the world "the state is CLOSED and a writer exists", every path
